@@ -169,6 +169,16 @@ func someFields(g *rng.R, n int) []zap.Field {
 	return fs
 }
 
+//go:noinline
+func descend(n int, f func()) {
+	if n <= 0 {
+		f()
+		return
+	}
+	descend(n-1, f)
+	runtime.KeepAlive(n)
+}
+
 type errGroup struct{ causes []error }
 
 func (g errGroup) Error() string   { return fmt.Sprintf("group of %d", len(g.causes)) }
@@ -424,6 +434,14 @@ var ops = []opFn{
 		d := wk.logger().With(someFields(wk.g, wk.g.Range(1, 3))...)
 		wk.keep(d)
 		return "Logger.With", ""
+	},
+	func(wk *worker) (string, string) {
+		// entries with a stack trace (and a zap.Stack field) logged from call stacks around and well
+		// beyond the size of the pooled stack storage
+		l, m := wk.logger().WithOptions(zap.AddStacktrace(zapcore.DebugLevel), zap.AddCaller()), wk.msg()
+		depth := rng.Pick(wk.g, []int{40, 60, 64, 70, 100, 150, 300})
+		descend(depth, func() { l.Info(m, zap.Stack("here")) })
+		return "log with a stack trace from a deep call stack", ""
 	},
 	func(wk *worker) (string, string) {
 		fs := wk.w.keptFields
